@@ -641,7 +641,14 @@ impl Ctx {
             }
             // what the specification says about head ++ 0^k: a final verdict is absorbing; a
             // Partial that is not deferred becomes Complete(len) with its completion witness
-            let head: Option<Vec<u8>> = if v.st != ST_P {
+            // behind an Err, a plausible continuation instead of zeros: the verdict is final all the
+            // same, and a scanner that let the offending byte through would now go on to accept
+            const AFTER_ERR: [&[u8]; 4] = [b"", b"aaaaaaaaaaaaaaaaaaaaaaaa HTTP/1.1\r\n\r\n", b"aaaaaaaaaaaaaaaaaaaaaaaa\r\n\r\n", b"aaaaaaaaaaaaaaaaaaaaaaaa: x\r\n\r\n"];
+            let head: Option<Vec<u8>> = if v.st == ST_E && v.kind != K_CHUNK {
+                let mut h = v.buf.clone();
+                h.extend_from_slice(AFTER_ERR[(idx % 4) as usize]);
+                Some(h)
+            } else if v.st != ST_P {
                 Some(v.buf.clone())
             } else if !v.deferred && !v.completion.is_empty() && v.kind != K_CHUNK {
                 let mut h = v.buf.clone();
